@@ -877,6 +877,30 @@ func (v *FV) applyContract(fr *Frame, st *State, con *Contract, callee *ssa.Func
 		}
 		v.assume(st.reach, t)
 	}
+	if con.Persistent && v.con != nil && len(v.con.Crash) > 0 && v.topFrame != nil && v.quiet == 0 {
+		// a crash point: the persistent state as it is now must satisfy the crash invariant
+		tf := v.topFrame
+		cvars := map[string]TV{}
+		for k, x := range tf.params {
+			cvars[k] = x
+		}
+		cenv := &ExprEnv{v: v, vars: cvars, snap: st.snap, old: tf.oldSnap, reach: st.reach, what: "crash invariant of " + v.con.Key}
+		if tf.fn.Pkg != nil {
+			cenv.pkg = tf.fn.Pkg.Pkg
+		}
+		for i, c := range v.con.Crash {
+			t, err := cenv.EvalBool(c.Text)
+			if err != nil {
+				v.specError(c, err)
+				continue
+			}
+			lbl := c.Name
+			if lbl == "" {
+				lbl = fmt.Sprint(i + 1)
+			}
+			v.oblige("crash", lbl, pos, "crash invariant after "+short+": "+c.Text, st.reach, t)
+		}
+	}
 	return results
 }
 
